@@ -7,7 +7,10 @@ filter construction, finalize(), set_persistent_data(), the real start on the vi
 `is_finalized()`, `persistent_dict`.  The oracle works on the real objects (identity, not names).
 """
 import asyncio
+import collections
+import collections.abc
 import types
+import warnings
 
 import edzed
 
@@ -32,7 +35,10 @@ RULE = ("random construction programs over <= 8 blocks (1..3 Inputs, 1..5 CBlock
         "calling check_signature() with expectations None / n / (lo, hi) with open bounds / malformed, "
         "connected with matching shapes (sizes at both bounds of the ranges) or with one mismatch class: "
         "empty or non-empty group for a single input, single input for a group, size just outside the "
-        "bounds, missing / extra input name. A case is "
+        "bounds, missing / extra input name; every group is handed over in one of the forms tuple, list, deque, "
+        "user-defined Sequence, range, iterator, generator expression, map object (named groups) or unpacked "
+        "from such an iterable (unnamed group) -- the protocol line and the oracle's expectation contain the "
+        "member list only, so every form must give the connection data of the tuple form. A case is "
         "distinct by its (lines, trace) hash and non-trivial if at least one connection was made")
 ASSUMPTIONS = [
     "constants that compare equal but differ in type (1 / True / 1.0) are not mixed: Const() shares one "
@@ -97,6 +103,64 @@ BAD_OTHER = ['dup_block_name', 'reserved_block_name', 'empty_block_name', 'conne
              'kwarg_underscore', 'multi_positional', 'slot_wrong_kind_obj', 'slot_wrong_kind_name',
              'slot_unknown_name', 'wrong_signature', 'unconnected']
 BAD_ALL = sorted(BAD_REFS) + BAD_OTHER
+
+
+# every way of GIVING a group that `_is_multiple` accepts (Sequence or Iterator); the one-shot ones
+# (iter, gen, map) can be walked only once
+FORMS = ['tuple', 'list', 'deque', 'userseq', 'iter', 'gen', 'map']
+ONE_SHOT = ('iter', 'gen', 'map')
+
+
+class UserSeq(collections.abc.Sequence):
+    """a user-defined read-only sequence"""
+
+    def __init__(self, items):
+        self._items = list(items)
+
+    def __getitem__(self, i):
+        return self._items[i]
+
+    def __len__(self):
+        return len(self._items)
+
+
+def make_group(form, items):
+    items = list(items)
+    if form == 'list':
+        return items
+    if form == 'deque':
+        return collections.deque(items)
+    if form == 'userseq':
+        return UserSeq(items)
+    if form == 'iter':
+        return iter(items)
+    if form == 'gen':
+        return (x for x in items)
+    if form == 'map':
+        return map(lambda x: x, items)
+    if form == 'range' and items and all(type(x) is int for x in items) \
+            and items == list(range(items[0], items[0] + len(items))):
+        return range(items[0], items[0] + len(items))
+    return tuple(items)
+
+
+def _assign_forms(rng, pos, named):
+    """choose how each group is handed over; returns the form of the unnamed group (`*form`)"""
+    for item in named:
+        inp = item[1]
+        if inp[0] != 'group':
+            continue
+        q = rng.random()
+        if q < 0.06 and 2 <= len(inp[1]) <= 3:
+            inp[1][:] = [['v', 2 + i] for i in range(len(inp[1]))]
+            form = 'range'
+        elif q < 0.4:
+            form = rng.choice(['tuple', 'list'])
+        else:
+            form = rng.choice(FORMS)
+        del inp[2:]
+        inp.append(form)
+    return rng.choice(FORMS) if pos and rng.random() < 0.5 else 'tuple'
 
 
 def _gen_esig(rng):
@@ -309,10 +373,10 @@ def gen_scenario(rng, bad=None):
                     ops.append(['connect', n, [], named + [['_', ['single', _gen_ref(rng, st)]]]])
                 elif bad == 'multi_positional':
                     ops.append(['connect', n, pos + [['v', rng.choice(TUPLE_KW[:3])]], named])
-            ops.append(['connect', n, pos, named])
+            ops.append(['connect', n, pos, named, _assign_forms(rng, pos, named)])
             if n == bad_cb and bad == 'connect_twice':
                 p2, n2 = _gen_connect(rng, st, classes[n], None, esigs[n])
-                ops.append(['connect', n, p2, n2])
+                ops.append(['connect', n, p2, n2, _assign_forms(rng, p2, n2)])
         maybe_slot()
         if bad == 'dup_block_name' and st['created'] and rng.random() < 0.3:
             ops.append(rng.choice([['s', rng.choice(st['created'])], ['c', 'any', rng.choice(st['created'])]]))
@@ -485,6 +549,7 @@ class _Run:
         self.constnames = {}
         self.lines, self.trace, self.steps, self.snaps = [], [], [], []
         self.started = False
+        self.forms = []
         self.emit('reset', 'ok')
 
     def emit(self, line, reply):
@@ -642,7 +707,8 @@ class _Run:
                 self.emit(line, 'err ' + err_kind(err))
                 self.steps.append(['add', name, 'err'])
         elif kind == 'connect':
-            _, b, pos, named = op
+            b, pos, named = op[1], op[2], op[3]
+            posform = op[4] if len(op) > 4 else 'tuple'
             blk = self.blocks.get(b)
             if not isinstance(blk, edzed.CBlock):
                 return
@@ -661,12 +727,18 @@ class _Run:
                     pnamed.append([k, ['single', r2]])
                 else:
                     items = [self.arg(r) for r in inp[1]]
-                    kwargs[k] = tuple(a for a, _ in items) if len(items) % 2 else [a for a, _ in items]
+                    form = inp[2] if len(inp) > 2 else ('tuple' if len(items) % 2 else 'list')
+                    kwargs[k] = make_group(form, [a for a, _ in items])
+                    self.forms.append(form)
                     pnamed.append([k, ['group', [r2 for _, r2 in items]]])
             line = (f'connect .{b} ' + ('+'.join(_ref_line(r) for r in ppos) or '-') + ' '
                     + ('+'.join(f'{k}={_inp_line(i)}' for k, i in pnamed) or '-'))
             try:
-                ret = blk.connect(*pargs, **kwargs)
+                if pargs:
+                    self.forms.append('*' + posform)
+                with warnings.catch_warnings():
+                    warnings.simplefilter('ignore')         # iterators are deprecated, but legal
+                    ret = blk.connect(*make_group(posform, pargs), **kwargs)
                 self.emit(line, 'ok' if ret is blk else 'err NotSelf')
                 self.specs[b] = (ppos, pnamed)
                 self.steps.append(['connect', b, 'ok'])
@@ -775,6 +847,7 @@ def run_impl(scn):
     for st in run.steps:
         if st[0] == 'add' and st[2] == 'ok' and st[3] in ('not', 'ovr', 'sig'):
             tags += [f'shape={c}' for c in set(_shape_cases(st[3], st[4], specs.get(st[1])))]
+    tags += [f'form={f}' for f in sorted(set(run.forms))]
     res = {'lines': run.lines, 'trace': run.trace, 'tags': tags, 'nontrivial': nconn > 0,
            'steps': run.steps, 'snaps': run.snaps, 'specs': specs,
            'created': {n: id(b) for n, b in run.blocks.items()}}
